@@ -1712,6 +1712,9 @@ func runC08(r *mon.Run, replay string) {
 	r.Floor("contender_rounds", 12)
 	r.Floor("store_faults_injected", 40)
 	r.Floor("older_revisions_confirmed_on_chain", 25)
+	r.Floor("reorgs_unconfirming_a_creation", 8)
+	r.Floor("reorgs_unconfirming_a_renewal", 4)
+	r.Floor("creations_confirmed_again_after_reorg", 6)
 	r.Floor("reorgs_unconfirming_a_revision", 4)
 	r.Floor("served_after_chain_event", 40)
 	r.Floor("stale_based_requests_refused", 25)
